@@ -1,6 +1,7 @@
 package simworld
 
 import (
+	"bytes"
 	"context"
 	"fmt"
 	"sort"
@@ -41,6 +42,7 @@ type c19Plan struct {
 
 type c19Kid struct {
 	owner       *c19Plan
+	holdsPipe   bool
 	ignoresTerm bool
 	killLatency time.Duration
 	life        time.Duration
@@ -87,6 +89,7 @@ func scenC19(r *Run, job *Job) {
 	simkernel.K = k
 	k.Logf = r.Logf
 	k.Clock = func() int64 { return int64(r.Now()) }
+	k.Step = func() int { return r.Step }
 	switch t.Draw(3) {
 	case 1:
 		r.ReorderNum, r.ReorderDen = 1, 3
@@ -108,7 +111,15 @@ func scenC19(r *Run, job *Job) {
 	ctx := context.Background()
 	nProcs := 1 + t.Draw(5)
 	depth := 6 + t.Draw(20)
-	r.Desc = fmt.Sprintf("C19 procs=%d depth=%d reorder=%d/%d smallpids=%v holds=%d", nProcs, depth, r.ReorderNum, r.ReorderDen, smallPids, len(r.Holds))
+	burst := t.Chance(1, 10)
+	if burst {
+		// many processes end within a moment while the consumer of the events channel is busy
+		k.PidMin, k.PidMax = 100, 32767
+		smallPids = false
+		nProcs = 12 + t.Draw(14)
+		depth = 3*nProcs + t.Draw(10)
+	}
+	r.Desc = fmt.Sprintf("C19 procs=%d depth=%d burst=%v reorder=%d/%d smallpids=%v holds=%d", nProcs, depth, burst, r.ReorderNum, r.ReorderDen, smallPids, len(r.Holds))
 	r.Logf("%s", r.Desc)
 
 	var queue []*c19Event
@@ -142,8 +153,11 @@ func scenC19(r *Run, job *Job) {
 			p.onTerm = "ignore"
 		}
 		p.killLatency = lat()
-		for n := t.Weighted(5, 2, 1); n > 0; n-- {
-			p.kids = append(p.kids, c19Kid{ignoresTerm: t.Chance(1, 2), killLatency: lat(), life: []time.Duration{-1, -1, 50 * time.Millisecond}[t.Draw(3)]})
+		if burst && !p.startFail && t.Chance(3, 4) {
+			p.life, p.end = []time.Duration{0, time.Millisecond, 2 * time.Millisecond}[t.Draw(3)], simkernel.Exited(t.Draw(3))
+		}
+		for n := t.Weighted(5, 2, 1); n > 0 && !burst; n-- {
+			p.kids = append(p.kids, c19Kid{holdsPipe: t.Chance(3, 4), ignoresTerm: t.Chance(1, 2), killLatency: lat(), life: []time.Duration{-1, -1, 50 * time.Millisecond}[t.Draw(3)]})
 		}
 		return p
 	}
@@ -164,7 +178,7 @@ func scenC19(r *Run, job *Job) {
 			at(p.life, fmt.Sprintf("%s ends on its own: %v", p.name, st), func() { k.Die(kp, st) })
 		}
 		for i, kid := range p.kids {
-			c, err := k.Fork(kp, fmt.Sprintf("%s/child-%d", kp.Path, i+1))
+			c, err := k.Fork(kp, fmt.Sprintf("%s/child-%d", kp.Path, i+1), kid.holdsPipe)
 			if err != nil {
 				continue // the fork failed for want of pids: a process with fewer children
 			}
@@ -203,6 +217,9 @@ func scenC19(r *Run, job *Job) {
 	var got []c19Got
 	evCh, _ := sv.Events(ctx, &model.EventsRequest{Domain: "runtime"})
 	consumerStall := []time.Duration{0, 0, 0, 30 * time.Millisecond, 3 * time.Second}[t.Draw(5)]
+	if burst {
+		consumerStall = []time.Duration{3 * time.Second, 10 * time.Second}[t.Draw(2)]
+	}
 	r.Go(func() {
 		for ev := range evCh {
 			g := c19Got{at: r.Now(), exit: ev.Event.ExitStatus, signo: ev.Event.Signo}
@@ -311,7 +328,11 @@ func scenC19(r *Run, job *Job) {
 	}
 	for i := 0; i < depth; i++ {
 		r.NextStep()
-		switch t.Weighted(5, 3, 4, 1, 1, 5) {
+		wExec := 5
+		if burst {
+			wExec = 30
+		}
+		switch t.Weighted(wExec, 3, 4, 1, 1, 5) {
 		case 0: // exec
 			if len(order) >= nProcs {
 				continue
@@ -322,6 +343,10 @@ func scenC19(r *Run, job *Job) {
 			cwd := "/var/task"
 			env := map[string]string{"A": "1", "NAME": p.name}
 			req := &model.ExecRequest{Domain: "runtime", Name: p.name, Path: path(p), Args: []string{"--flag", p.name}, Cwd: &cwd, Env: &env}
+			if t.Chance(2, 3) {
+				// output goes to a log writer, i.e. through a pipe every descendant inherits (as in the emulator)
+				req.StdoutWriter, req.StderrWriter = &bytes.Buffer{}, &bytes.Buffer{}
+			}
 			c := &c19Call{kind: "exec", name: p.name}
 			p.execStarted = true
 			issue(c, func() error {
@@ -397,9 +422,41 @@ func scenC19(r *Run, job *Job) {
 		}
 	}
 	pass(45 * time.Second)
+	// orphans that outlived their leader (and may hold its output pipe) are ended by the driver
+	for _, q := range k.All {
+		if q.State == simkernel.Running {
+			r.NextStep()
+			r.Logf("kernel event: the orphan %v is removed", q)
+			k.Die(q, simkernel.Signaled(simkernel.SIGKILL))
+			r.Settle()
+			judge()
+		}
+	}
+	pass(time.Second)
+	// a slow consumer is given the time it needs to collect what the supervisor has to deliver
+	for waited := time.Duration(0); waited < time.Duration(nProcs+1)*consumerStall; waited += 5 * time.Second {
+		started := 0
+		for _, p := range order {
+			if p.proc != nil {
+				started++
+			}
+		}
+		if len(got) >= started {
+			break
+		}
+		pass(5 * time.Second)
+	}
 	r.DisableHolds()
 	r.Settle()
 	judge()
+	// classification for the known-findings file: a Terminate / Kill goroutine that was descheduled between its
+	// "still running?" check and its system call, while pids were being recycled - the window every signal-by-pid
+	// interface has (no pidfd); anything the final judge reports in such a run carries this tag
+	for _, h := range r.Holds {
+		if h.W != nil && smallPids && (strings.Contains(h.Sig, "Kernel).Getpgid") || strings.Contains(h.Sig, "Kernel).Kill")) {
+			r.Known = "pid-reuse-toctou@" + h.Sig
+		}
+	}
 	c19Final(r, k, order, calls, got)
 }
 
@@ -475,7 +532,7 @@ func c19JudgeCalls(r *Run, k *simkernel.Kernel, calls []*c19Call, known func(str
 			}
 			r.NonTriv = true
 		case "kill":
-			reaped := started && p.proc.State == simkernel.Gone
+			reaped := started && p.proc.WaitDoneSeq > 0 // the supervisor's Wait on it has returned
 			if !c.done {
 				if r.HeldNow() {
 					continue
@@ -513,11 +570,11 @@ func c19JudgeCalls(r *Run, k *simkernel.Kernel, calls []*c19Call, known func(str
 			// an error is legitimate only if the process had not terminated before the call and was still there at
 			// the deadline (which includes a deadline that was already in the past)
 			kp := p.proc
-			if kp.ReapedSeq > 0 && kp.ReapedSeq <= c.startSeq {
+			if kp.WaitDoneSeq > 0 && kp.WaitDoneSeq <= c.startSeq && time.Duration(kp.WaitDoneAt) <= c.startAt && c19Before(kp, c) {
 				r.Failf("C19.kill-false-error", "Kill of %s, which had terminated (%v) before the call, returned %v", c.name, kp.Status, c.err)
 			}
-			if kp.ReapedSeq > 0 && time.Duration(kp.ReapedAt) < c.deadline {
-				r.Failf("C19.kill-false-error", "Kill of %s returned %v although the process terminated at %v, before the deadline %v", c.name, c.err, time.Duration(kp.ReapedAt), c.deadline)
+			if kp.WaitDoneSeq > 0 && time.Duration(kp.WaitDoneAt) < c.deadline {
+				r.Failf("C19.kill-false-error", "Kill of %s returned %v although the process had terminated and been waited for at %v (died at %v), before the deadline %v", c.name, c.err, time.Duration(kp.WaitDoneAt), time.Duration(kp.DiedAt), c.deadline)
 			}
 			if c.deadline > c.startAt && c.endAt < c.deadline {
 				r.Failf("C19.kill-false-error", "Kill of %s gave up at %v, before its deadline %v: %v", c.name, c.endAt, c.deadline, c.err)
@@ -525,6 +582,10 @@ func c19JudgeCalls(r *Run, k *simkernel.Kernel, calls []*c19Call, known func(str
 		}
 	}
 }
+
+// c19Before: the Wait on the process returned in an earlier external step than the one the call was issued in
+// (within one step the supervisor's goroutines are concurrent).
+func c19Before(kp *simkernel.Proc, c *c19Call) bool { return kp.WaitDoneStep < c.startStep }
 
 func c19Final(r *Run, k *simkernel.Kernel, order []*c19Plan, calls []*c19Call, got []c19Got) {
 	// 1. exactly one truthful event per started process
